@@ -561,6 +561,10 @@ def exec_step(step, sess, chains, audit):
     elif op == 'rename_profile_stop':
         sys.setprofile(None)
         obs['rename_returns'] = sess.get('_rename_state', {}).get('n', 0)
+    elif op == 'warm_reprs':
+        # earlier use of the parameter-object classes in this interpreter (parent classes before their subclasses)
+        obs['reprs'] = [rt.LabObj(a=1).repr(), rt.LabObjPlain(x=1).repr(), rt.LabObjSub(a=1, limit=2).repr(), rt.LabObjVar(a=1, k=2).repr(),
+                        rt.LabObjDerived(root='r').repr(), rt.LabObj(a=[1, {'k': 2}], b=4, verbose=True).repr()]
     elif op == 'exit':
         os._exit(step.get('code', 0))
     else:
